@@ -315,12 +315,23 @@ func c08Random(c *Ctx) {
 		c.Case(int64(i), func(k *K) {
 			r := k.Rand()
 			alpha := []byte("acgt")[:2+r.IntN(3)]
+			if r.IntN(6) == 0 {
+				alpha = []byte{0, 254, 'a', '\n'}[:2+r.IntN(3)] // extreme byte values (255 is the gap symbol)
+			}
 			m, local := c08Gen(r, i, alpha)
 			if r.IntN(5) == 0 {
 				m = genAlignMatrix(r, matSpec{alpha: alpha, gapOpen: pick(r, []float64{0, -0.5, -2.25}), gapSign: -1, fraction: true})
 				local = true
 			}
 			a, b := relatedPair(r, alpha, pick(r, []int{8, 20, 60}))
+			if r.IntN(20) == 0 {
+				b = a // the same slice passed twice
+				k.Count("aliased_arguments", 1)
+			}
+			if k.c.Thorough && r.IntN(200) == 0 {
+				a, b = relatedPair(r, alpha, 900) // a large table
+				k.Count("large_tables", 1)
+			}
 			k.Input("a", a)
 			k.Input("b", b)
 			k.Input("matrix", matrixDesc(m))
